@@ -103,12 +103,12 @@ def add (T : FileType) (f : File) (m : Msg) : File := addN T f (normT T m)
 def build (T : FileType) (msgs : List Msg) : File := msgs.foldl (add T) []
 
 /-- what `mesgdef.FileId{}.ToMesg()` gives: the file_id of a file to which none was added -/
-def defaultMsg (T : FileType) (s : Slot) : Msg :=
-  { num := s.num, f1 := T.d1, f253 := T.d253, f254 := T.d254, tag := 0, dg := T.defaultDg, ft := 0 }
+def defaultMsg (T : FileType) (n : Nat) : Msg :=
+  { num := n, f1 := T.d1, f253 := T.d253, f254 := T.d254, tag := 0, dg := T.defaultDg, ft := 0 }
 
 def slotMsgs (T : FileType) (f : File) (s : Slot) : List Msg :=
   let l := f.filter (fun m => m.num == s.num)
-  if s.kind == .value && l.isEmpty then [defaultMsg T s] else l
+  if s.kind == .value && l.isEmpty then [defaultMsg T s.num] else l
 
 def unrelated (T : FileType) (f : File) : List Msg := f.filter (fun m => (slotOf T m.num).isNone)
 
